@@ -4,6 +4,7 @@ import (
 	"fmt"
 	"os"
 	"strings"
+	"sync"
 
 	"golang.org/x/tools/go/packages"
 	"golang.org/x/tools/go/ssa"
@@ -17,6 +18,7 @@ import (
 // can never pass by having stopped matching anything.
 
 var fixtureCache = map[string][]*ssa.Function{}
+var fixtureMu sync.Mutex
 
 func verifDir() string {
 	if d := os.Getenv("VERIF_DIR"); d != "" {
@@ -26,6 +28,8 @@ func verifDir() string {
 }
 
 func loadFixture(name string) ([]*ssa.Function, error) {
+	fixtureMu.Lock()
+	defer fixtureMu.Unlock()
 	if f, ok := fixtureCache[name]; ok {
 		return f, nil
 	}
